@@ -135,7 +135,7 @@ class FaultSeam:
         self.fire_at = -1  # crossing index at which to raise (0-based); -1: only count
         self.when = "before"
         self.fired: str | None = None
-        self.observe: Callable[[str], None] | None = None
+        self.observer: Callable[[str, tuple], None] | None = None  # called after a completed call
 
     def install(self) -> None:
         if self._installed:
@@ -154,13 +154,18 @@ class FaultSeam:
             def make(orig: Any, site: str) -> Any:
                 def wrapper(*a: Any, **k: Any) -> Any:
                     if not seam.armed:
-                        return orig(*a, **k)
+                        r = orig(*a, **k)
+                        if seam.observer is not None:
+                            seam.observer(site, a)
+                        return r
                     idx = seam.count
                     seam.count += 1
                     if idx == seam.fire_at and seam.when == "before":
                         seam.fired = site
                         raise SimFault(f"injected before {site} (crossing {idx})")
                     r = orig(*a, **k)
+                    if seam.observer is not None:
+                        seam.observer(site, a)
                     if idx == seam.fire_at and seam.when == "after":
                         seam.fired = site
                         raise SimFault(f"injected after {site} (crossing {idx})")
@@ -181,6 +186,7 @@ class FaultSeam:
         self._saved.clear()
         self._installed = False
         self.missing.clear()
+        self.observer = None
 
     @contextlib.contextmanager
     def arm(self, fire_at: int = -1, when: str = "before") -> Iterator["FaultSeam"]:
